@@ -226,7 +226,7 @@ class ManageSieveConnection:
             return Response(Condition.NO, text='Invalid SASL mechanism.')
         responses: list[ChallengeResponse] = []
         if cmd.initial_data is not None:
-            resp_dec = b64decode(cmd.initial_data)
+            resp_dec = b64decode(cmd.initial_data, validate=True)
             responses.append(ChallengeResponse(b'', resp_dec))
         while True:
             try:
@@ -243,7 +243,7 @@ class ManageSieveConnection:
                     raise AuthenticationError('Authentication cancelled.') \
                         from None
                 try:
-                    resp_dec = b64decode(resp_str.value)
+                    resp_dec = b64decode(resp_str.value, validate=True)
                 except binascii.Error as exc:
                     raise AuthenticationError() from exc
                 else:
